@@ -150,13 +150,13 @@ def contract_circshift():
         ensures=[
             ("length", "RLEN(result) == len(old(filt))"),
             ("multiplies_the_filter", "RBASE_IS_FILT(result)"),
-            ("phase_coefficient", "RCOEF(result) * DD() == -2 * np.pi * FMOD(shift, DD())"),
+            ("phase_coefficient", "RCOEF(result) * DD() == -2 * np.pi * FMOD(old(shift), DD())"),      # the CALLER's shift (the code reduces its local)
             ("phase_ramp", "forall(k, 0, len(old(filt)), RRAMP(result, k) == FMOD(start_idx + k, DD()))"),
             ("copy_leaves_input", "implies(copy or not C128(), not INPLACE(result))"),
             ("in_place_writes_through", "implies(not copy and C128(), INPLACE(result))"),
         ],
     )
-    c.canaries = [("phase_coefficient_unreduced_shift", "RCOEF(result) * DD() == -2 * np.pi * (shift + DD())")]
+    c.canaries = [("phase_coefficient_unreduced_shift", "RCOEF(result) * DD() == -2 * np.pi * (old(shift) + DD())")]
     return c
 
 
